@@ -827,6 +827,18 @@ async fn ensure_proposition(
     // semantic tuple (§59), so an existing tuple is bound rather than
     // duplicated — and binding it changes nothing, because the tuple is
     // immutable (§61).
+    if let Some(id) = tx.staged_proposition(&key) {
+        // Ensured earlier in this same statement and not yet written.
+        if expect_version.is_some_and(|expected| expected != 0) {
+            return Err(KipError::version_conflict(
+                "this tuple is being created by this statement, so it has no version yet",
+            ));
+        }
+        if let Some(handle) = &clause.handle {
+            tx.bind_existing(handle, id)?;
+        }
+        return Ok(());
+    }
     if let Some(existing) = store.find_proposition(&key).await? {
         let id = ElementId::new(ElementKind::Proposition, existing._id);
         if let Some(expected) = expect_version {
